@@ -269,9 +269,8 @@ MidFlush ==
     /\ EnableFlush
     /\ pc.k = "reorg" /\ pc.stepped       \* right after an individual apply or revert
     /\ act' = [op |-> "MidFlush"]
-    /\ dur' = Image
-    /\ pc' = [pc EXCEPT !.stepped = FALSE]
-    /\ UNCHANGED <<t, blk, sta, best, mem, ret, led, subs, notif, seen>>
+    /\ dur' = Image                          \* idempotent: a second commit changes nothing
+    /\ UNCHANGED <<t, blk, sta, best, mem, pc, ret, led, subs, notif, seen>>
 
 \* the process stops at any moment; NewDBStore + NewManager on the committed image
 Crash ==
